@@ -194,6 +194,7 @@ func runC07P(c *fw.Ctx) {
 		one(file, idx, size <= 8192)
 	}
 	c07pV1(c, model)
+	c16ProverPath(c, model) // the library prover path for multi-sector files (shared with C16)
 	c.Compare(ops, outs)
 }
 
